@@ -5,6 +5,8 @@ import (
 
 	"github.com/Fantom-foundation/lachesis-base/hash"
 	"github.com/Fantom-foundation/lachesis-base/inter/dag"
+	"github.com/Fantom-foundation/lachesis-base/inter/dag/tdag"
+	"github.com/Fantom-foundation/lachesis-base/inter/idx"
 	"github.com/Fantom-foundation/lachesis-base/inter/pos"
 	"github.com/Fantom-foundation/lachesis-base/vecfc"
 	"verif/ref/kv"
@@ -32,6 +34,66 @@ func NewIdxNode(vals *pos.Validators, cfg vecfc.IndexConfig) *IdxNode {
 	n.Index = vecfc.NewIndex(func(err error) { panic(critPanic{err}) }, cfg)
 	n.Index.Reset(vals, n.DB, n.getEvent)
 	return n
+}
+
+// NewIdxNodeAfterSmallerEpoch returns a node whose Index instance has already served an epoch with a
+// smaller validator group (two events of the first validator, flushed) and was then Reset to vals.
+func NewIdxNodeAfterSmallerEpoch(vals *pos.Validators, cfg vecfc.IndexConfig) *IdxNode {
+	n := &IdxNode{DB: kv.New(), Vals: vals, Cfg: cfg, Events: map[hash.Event]dag.Event{}}
+	n.Index = vecfc.NewIndex(func(err error) { panic(critPanic{err}) }, cfg)
+	b := pos.NewBuilder()
+	first := vals.SortedIDs()[0]
+	b.Set(first, 1)
+	old := b.Build()
+	oldDB := kv.New()
+	n.Index.Reset(old, oldDB, n.getEvent)
+	var prev *tdag.TestEvent
+	for i := 1; i <= 2; i++ {
+		e := &tdag.TestEvent{}
+		e.SetEpoch(0)
+		e.SetCreator(first)
+		e.SetSeq(idx.Event(i))
+		e.SetLamport(idx.Lamport(i))
+		if prev != nil {
+			e.SetParents(hash.Events{prev.ID()})
+		}
+		var tail [24]byte
+		tail[0], tail[1] = 0xee, byte(i)
+		e.SetID(tail)
+		n.Events[e.ID()] = e
+		if err := n.Index.Add(e); err != nil {
+			panic(err)
+		}
+		n.Index.Flush()
+		prev = e
+	}
+	n.Index.Reset(vals, n.DB, n.getEvent)
+	return n
+}
+
+// CrossReset re-indexes the given events (an alternative parents-first order of the same set) into a second
+// database through the SAME Index instance and then resets the instance back to the node's own database: the
+// instance's caches must not carry anything over from the other database (branch numbering may differ there).
+func (n *IdxNode) CrossReset(alt []dag.Event) (crit string) {
+	pv := catch(func() {
+		other := kv.New()
+		n.Index.Reset(n.Vals, other, n.getEvent)
+		for _, e := range alt {
+			if err := n.Index.Add(e); err != nil {
+				panic(err)
+			}
+			n.Index.Flush()
+		}
+		// warm the caches with the other database's vectors
+		for _, e := range alt {
+			n.Index.GetMergedHighestBefore(e.ID())
+		}
+		n.Index.Reset(n.Vals, n.DB, n.getEvent)
+	})
+	if pv != nil {
+		return fmt.Sprint(pv)
+	}
+	return ""
 }
 
 // Cold returns a fresh index over a copy of the persisted data (cold caches).
